@@ -1019,7 +1019,7 @@ func TestC29(t *testing.T) {
 	gexKex := []string{"diffie-hellman-group-exchange-sha256", "diffie-hellman-group-exchange-sha1"}
 	idx, completed := 0, 0
 	sk, sn := ev.Shard()
-	stride := ev.Scale(7, 1) // quick: every 7th triple, offset by the shard => 15^3/7 spread over the shards
+	stride := ev.Scale(4, 1) // quick: every 4th triple, spread over the shards
 	for _, mn := range gexBoundary {
 		for _, nn := range gexBoundary {
 			for _, mx := range gexBoundary {
@@ -1047,7 +1047,7 @@ func TestC29(t *testing.T) {
 	if ev.Thorough() {
 		c.Exhaustive("DH-GEX (min, n, max) boundary grid 15^3", idx)
 	} else {
-		c.Exhaustive("DH-GEX (min, n, max) boundary grid 15^3, every 7th triple", idx/stride)
+		c.Exhaustive("DH-GEX (min, n, max) boundary grid 15^3, every 4th triple", idx/stride)
 	}
 	near := func(rt *rapid.T, label string) uint32 {
 		switch rapid.IntRange(0, 3).Draw(rt, label+"Kind") {
